@@ -51,7 +51,7 @@ EXPECTED_PROBES = ("raised-in:def", "raised-in:def-buffered", "raised-in:def-fil
                    "raised-in:block", "raised-in:block-filtered", "raised-in:include", "raised-in:try", "raised-in:base-body",
                    "handled:try", "handled:include_error_handler", "handled:error_handler", "handled:render_context-caller",
                    "unhandled:identity-checked", "unhandled:error-page", "sink-write-failed", "cache-creation-raised",
-                   "namespace-def-called")
+                   "namespace-def-called", "prologue-raised")
 
 
 # ---------------------------------------------------------------- generator
@@ -195,6 +195,9 @@ class Gen:
             aware = r.random() < 0.3
             # defs may call defs created before them (no recursion)
             defs.append(self.gen_def("d%d" % (j + 1), [e for e in defs if not e.get("aware")], 1, aware=aware))
+        plain_defs = [d for d in defs if not d.get("aware") and not d.get("cached")]
+        if plain_defs and r.random() < 0.3:
+            r.choice(plain_defs)["undef"] = True
         body = self.gen_body(defs, 0, False, False, True, True, nmax=7)
         prog = {"defs": defs, "body": body, "incs": incs, "base": None, "child_hd": None, "lib": self.lib,
                 "cache_impl": r.choice(("simdict", "beaker"))}
@@ -211,7 +214,7 @@ class Gen:
 def generate(rng, tier, idx, force=None):
     g = Gen(rng)
     prog = g.program()
-    return {"engine": NAME, "property": PROPERTY, "prog": prog, "placements": list(PLACEMENTS),
+    return {"engine": NAME, "property": PROPERTY, "prog": prog, "placements": list(PLACEMENTS), "in_except": rng.random() < 0.5,
             "max_faults": 80 if tier == "quick" else 160, "pick_seed": rng.getrandbits(32)}
 
 
@@ -263,7 +266,7 @@ def emit_node(n):
     if t == "for":
         return "\\\n%% for x%d in it(%d, %d, %s):\n%s\\\n%% endfor\n" % (n["v"], n["i"], n["n"], n.get("c"), emit_nodes(n["body"]))
     if t == "try":
-        return "\\\n% try:\n" + emit_nodes(n["body"]) + "\\\n% except Boom as e:\n" + emit_nodes(n["handler"]) + "\\\n% endtry\n"
+        return "\\\n% try:\n" + emit_nodes(n["body"]) + "\\\n% except Exception as e:\n" + emit_nodes(n["handler"]) + "\\\n% endtry\n"
     if t == "call":
         args = ("p(%d)" % n["arg"]) if n.get("arg") is not None else ""
         if n["via"] == "capture":
@@ -302,6 +305,8 @@ def emit_def(d):
         attrs += ' decorator="dec(%d)"' % d["decorator"]
     inner = "".join(emit_def(nd) for nd in d.get("nested", ()))
     head = "(${a})" if d.get("arg") else ""
+    if d.get("undef"):
+        head += "${zz}"
     return "<%%def %s>%s%s%s</%%def>" % (attrs, inner, head, emit_nodes(d["body"]))
 
 
@@ -404,7 +409,7 @@ class Harness:
             return lk
         from mako.lookup import TemplateLookup
 
-        kw = {"cache_impl": self.prog["cache_impl"]}
+        kw = {"cache_impl": self.prog["cache_impl"], "strict_undefined": True}
         if self.prog["cache_impl"] == "beaker":
             kw["cache_args"] = {"type": "memory"}
         if placement in ("error_handler", "error_handler_base"):
@@ -445,7 +450,17 @@ class Harness:
                 t.cache.invalidate_closure(name)
 
     # ---- one render on the real code
-    def real_render(self, placement, fault, sink_fail=None):
+    def real_render(self, placement, fault, sink_fail=None, undef=False):
+        if self.trace.get("in_except"):
+            # a render started while another exception is being handled must behave the same
+            try:
+                raise LookupError("unrelated exception being handled by the caller")
+            except LookupError:
+                return self._real_render(placement, fault, sink_fail, undef)
+        return self._real_render(placement, fault, sink_fail, undef)
+
+    def _real_render(self, placement, fault, sink_fail=None, undef=False):
+        data = {} if undef else {"zz": "ZZ"}
         """-> dict(status=ok|raised, text=..., exc=...) plus state observations for render_context"""
         lk, real_get = self.lookup_for(placement)
         self.reset_caches(real_get)
@@ -457,7 +472,7 @@ class Harness:
             from mako.runtime import Context
 
             sink = Sink(sink_fail)
-            ctx = Context(sink)
+            ctx = Context(sink, **data)
             try:
                 t.render_context(ctx)
                 out["status"] = "ok"
@@ -484,7 +499,7 @@ class Harness:
             out["text"] = sink.getvalue()
         else:
             try:
-                out["text"] = t.render()
+                out["text"] = t.render(**data)
                 out["status"] = "ok"
             except (Exception, c13rt.BoomBase) as e:
                 out["status"] = "raised"
@@ -494,7 +509,7 @@ class Harness:
         # the Template can be rendered again with correct results
         c13rt.ST.reset(None)
         try:
-            out["second"] = t.render() if placement != "render_context" else self._second_ctx(t)
+            out["second"] = t.render(zz="ZZ") if placement != "render_context" else self._second_ctx(t)
         except Exception as e:
             out["second"] = "raised %s: %s" % (type(e).__name__, str(e)[:100])
         return out
@@ -503,7 +518,7 @@ class Harness:
         from mako.runtime import Context
 
         s = Sink()
-        t.render_context(Context(s))
+        t.render_context(Context(s, zz="ZZ"))
         return s.getvalue()
 
     # ---- the enumeration
@@ -547,6 +562,14 @@ class Harness:
                     continue
                 self.check_fault(pl, fault, fault_free)
                 self.points_done += 1
+        # the prologue of a marked def fails (strict_undefined name missing from the context)
+        if any(d.get("undef") for d in prog["defs"]):
+            for pl in ("none", "error_handler", "render_context", "error_handler_false"):
+                if pl not in self.trace["placements"]:
+                    continue
+                if only and (only["placement"] != pl or not only.get("undef")):
+                    continue
+                self.check_undef(pl, fault_free)
         # failing writes of the caller's sink (render_context placement only)
         if "render_context" in self.trace["placements"]:
             real0 = self.real_render("render_context", None)
@@ -622,6 +645,44 @@ class Harness:
         if real["second"] != again[1]:
             self.flag("second-render", "%s: rendering the same Template again gave %r, expected %r"
                       % (fdesc, real["second"], again[1]), label)
+
+    def check_undef(self, pl, fault_free):
+        prog = self.prog
+        self.current = {"placement": pl, "undef": True}
+        m = Interp(prog, include_handler=False, undef=True)
+        mr = m.render()
+        if m.raised_in is None:
+            return  # the marked def is never called
+        real = self.real_render(pl, None, undef=True)
+        where = m.raised_in
+        self.probe("prologue-raised")
+        self.faults_fired["raise@prologue"] = self.faults_fired.get("raise@prologue", 0) + 1
+        fdesc = "name lookup in the prologue of a def raising (strict_undefined) inside %s, handler placement %s" % (where, pl)
+        label = where
+        self.log.add("undef", pl, real["status"], real.get("text") if real["status"] == "ok" else type(real.get("exc")).__name__)
+        if mr[0] == "ok":
+            want = mr[1] + ("|W|T2<nocaller>" if pl == "render_context" else "")
+            if real["status"] != "ok" or real["text"] != want:
+                self.flag("output-mismatch", "%s: rendered %s, the reference interpreter gives %r"
+                          % (fdesc, repr(real["text"]) if real["status"] == "ok" else "raised %r" % real.get("exc"), want), label)
+        else:
+            partial = mr[2]
+            if pl in ("none", "error_handler_false"):
+                if real["status"] != "raised" or not isinstance(real["exc"], NameError):
+                    self.flag("exception-identity", "%s: expected the NameError to propagate, got %s"
+                              % (fdesc, ("text %r" % real["text"]) if real["status"] == "ok" else repr(real.get("exc"))), label)
+            elif pl == "error_handler":
+                want = partial + "[EH]"
+                if real["status"] != "ok" or real["text"] != want:
+                    self.flag("output-mismatch", "%s: with an error_handler returning True render gave %s; expected %r"
+                              % (fdesc, repr(real["text"]) if real["status"] == "ok" else "raised %r" % real.get("exc"), want), label)
+            elif pl == "render_context":
+                if real["status"] != "raised" or not isinstance(real["exc"], NameError):
+                    self.flag("exception-identity", "%s: render_context should raise the NameError, got %r" % (fdesc, real.get("exc")), label)
+                self.check_context_state(real, partial, fdesc, label)
+        again = Interp(prog, fault=None, cache=m.cache).render()
+        if real["second"] != again[1]:
+            self.flag("second-render", "%s: rendering the same Template again gave %r, expected %r" % (fdesc, real["second"], again[1]), label)
 
     def check_context_state(self, real, partial, fdesc, label):
         if real["buffer_depth"] != 1 or not real["top_is_sink"]:
